@@ -61,7 +61,7 @@ var rtWktTargets = map[string]bool{
 	"protobuf_test_messages.editions.TestAllTypesEdition2023": true,
 	"google.protobuf.Struct": true, "google.protobuf.Value": true, "google.protobuf.Any": true,
 	"google.protobuf.Timestamp": true, "google.protobuf.Duration": true, "google.protobuf.FieldMask": true,
-	"google.protobuf.ListValue": true, "google.protobuf.Option": true,
+	"google.protobuf.ListValue": true, "google.protobuf.Option": true, "verif.KW": true,
 }
 
 // rtPick chooses the next target: random schemas, well-known-type heavy types, all-kinds types, any type.
